@@ -121,11 +121,16 @@ func (g *gateDB) UpdateExternalAccountKey(ctx context.Context, provisionerID str
 type world struct {
 	e    *env.Env
 	gate *gateDB
+	pol  *env.PolicyDB
 }
 
 func newWorld() (*world, error) {
 	w := &world{}
-	e, err := env.New(provs, func(d acme.DB) acme.DB { w.gate = &gateDB{DB: d}; return w.gate })
+	e, err := env.New(provs, func(d acme.DB) acme.DB {
+		w.pol = env.NewPolicyDB(d)
+		w.gate = &gateDB{DB: w.pol}
+		return w.gate
+	})
 	if err != nil {
 		return nil, err
 	}
@@ -646,7 +651,7 @@ func main() {
 	n := flag.Int("n", 300, "number of generated cases")
 	out := flag.String("out", "", "output file")
 	replay := flag.String("replay", "", "file of lines carrying case=x… to re-run")
-	stage := flag.String("stage", "hist", "hist | conc | bindonce")
+	stage := flag.String("stage", "hist", "hist | conc | bindonce | policy")
 	flag.Parse()
 	o, err := c.NewOut(*out)
 	if err != nil {
@@ -661,9 +666,7 @@ func main() {
 	}
 	defer func() { w.e.Close() }()
 	emitted := 0
-	emit := func(k *Case) {
-		// the store keeps one JSON list of all key ids per provisioner (rewritten on every key
-		// creation): start over with a fresh environment now and then to stay linear
+	recycle := func() {
 		emitted++
 		if emitted%1500 == 0 {
 			w.e.Close()
@@ -674,6 +677,11 @@ func main() {
 			}
 			*w = *nw
 		}
+	}
+	emit := func(k *Case) {
+		// the store keeps one JSON list of all key ids per provisioner (rewritten on every key
+		// creation): start over with a fresh environment now and then to stay linear
+		recycle()
 		var line, impl, oracle string
 		func() {
 			defer func() {
@@ -693,6 +701,24 @@ func main() {
 		}
 		o.Case(line, impl)
 	}
+	emitPol := func(k *PolCase) {
+		recycle()
+		var line, impl string
+		func() {
+			defer func() {
+				if r := recover(); r != nil {
+					line, impl = "", ""
+					if l, ok := k.line(); ok {
+						line, impl = l, "crash"
+					}
+				}
+			}()
+			line, impl = w.runPolicy(k)
+		}()
+		if line != "" {
+			o.Case(line, impl)
+		}
+	}
 	if *replay != "" {
 		data, err := os.ReadFile(*replay)
 		if err != nil {
@@ -710,6 +736,13 @@ func main() {
 			}
 			js, err := hex.DecodeString(h)
 			if err != nil {
+				continue
+			}
+			if strings.HasPrefix(l, "cmp=class") {
+				var pk PolCase
+				if json.Unmarshal(js, &pk) == nil {
+					emitPol(&pk)
+				}
 				continue
 			}
 			var k Case
@@ -741,6 +774,13 @@ func main() {
 		}
 		for i := 0; i < *n; i++ {
 			emit(genConc(r.Fork()))
+		}
+	case "policy":
+		for _, k := range policyCorners() {
+			emitPol(k)
+		}
+		for i := 0; i < *n; i++ {
+			emitPol(genPolicy(r.Fork()))
 		}
 	case "bindonce":
 		for _, s := range []string{"000111", "111000", "010101"} {
